@@ -73,7 +73,7 @@ CLAIMED.update({
             "called directly.", "TLA+ placement theorems model-checked on a scaled machine + TLC trace validation of file records with exact limb arithmetic"),
 })
 
-FS = "DrfFs, MCDrfFs, DrfFsTrace, Runs, TraceBase"
+FS = "DrfFs, MCDrfFs, DrfFsTrace, DrfLive, MCDrfLive, DrfLiveTrace, Runs, TraceBase"
 FS_TECH = "TLA+ spec of the publication protocol + TLC exhaustive model checking (crash, faults, reader interleavings); TLC trace validation of recordings stepped operation by operation under an LD_PRELOAD interposer"
 FS_NOTE = ("Trusted: TLC, the interposer (harness/fsshim/shim.c: it must see every mutating libc call HDF5 issues - open/creat/write/pwrite/"
            "ftruncate/close/rename/unlink/remove/mkdir/rmdir; a future HDF5 using io_uring/mmap/pwritev would need it extended), the raw h5py "
@@ -88,7 +88,7 @@ CLAIMED.update({
     "C09": (FS, "Reader passes of a pool of long-lived DigitalRFReader objects (created at different moments of the recording) are taken between "
             "every two file-system operations of the writer; TLC requires each pass to succeed, to equal exactly the finalized files at that "
             "moment and never to shrink; E1 checks ReaderNeverFails / VisibilityMonotone over all interleavings of the protocol.",
-            FS_NOTE + " The free-running (unsynchronised) reader/writer variant is not built; the stepped schedule is the systematic one.", FS_TECH),
+            FS_NOTE + " The free-running part (writer and reader processes at full speed, no common clock; DrfLive / DrfLiveTrace) observes whatever interleavings the OS produces; the stepped schedule is the systematic one.", FS_TECH),
     "C10": (FS, "Every single-fault schedule of a recording (each operation failing with ENOSPC or EIO, once or persistently) is executed through "
             "the interposer; TLC validates the operation sequence and decides at the end: no unreadable or wrong final file, files finalized "
             "before the fault unchanged, and - when an accepted sample is unreadable and a call was made after the failure - an error by the "
